@@ -226,11 +226,21 @@ impl Response {
                 body: content_buf,
             })
         } else {
+            // Without a length, the body of a response that may have one is delimited by the end of the stream
+            let code: u16 = status.into();
+            let mut body: Vec<u8> = Vec::new();
+
+            if !((100..200).contains(&code) || code == 204 || code == 304) {
+                reader
+                    .read_to_end(&mut body)
+                    .map_err(|_| ResponseError::Stream)?;
+            }
+
             Ok(Self {
                 version,
                 status_code: status,
                 headers,
-                body: Vec::new(),
+                body,
             })
         }
     }
